@@ -200,6 +200,12 @@ def replay(ctx, cases):
     return results
 
 
+def dominant(counts):
+    """The two functions that occur most often on the stack (the recursion cycle), as a stable key."""
+    top = sorted(counts.items(), key=lambda kv: (-kv[1], kv[0]))[:2]
+    return "+".join(sorted(name.split("::")[-1] for name, _ in top))
+
+
 def mechanism_of_death(ctx, case):
     """Re-run one dying program under gdb and name the function that dominates the overflowing stack, so that
     different unbounded recursions get different signatures.  Falls back to 'unknown' without gdb."""
@@ -223,8 +229,7 @@ def mechanism_of_death(ctx, case):
     if not counts:
         return "unknown"
     kind = "stack-overflow" if "overflowed its stack" in p.stdout or "SIGSEGV" in p.stdout else "abort"
-    top = sorted(counts.items(), key=lambda kv: (-kv[1], kv[0]))[0][0]
-    return "%s/%s" % (kind, top)
+    return "%s/%s" % (kind, dominant(counts))
 
 
 def mechanism_of_hang(ctx, case):
@@ -255,7 +260,7 @@ def mechanism_of_hang(ctx, case):
         counts[name] = counts.get(name, 0) + 1
     if not counts:
         return "unknown"
-    return sorted(counts.items(), key=lambda kv: (-kv[1], kv[0]))[0][0]
+    return dominant(counts)
 
 
 def run(ctx):
